@@ -27,6 +27,7 @@ EXPLANATION = (
     "writeout and DocPage. R6: graph node URLs only for visible entities. Decides these structural "
     "necessary conditions only, not the existence of each concrete target file."
     " R7: every entity whose get_url() names its own page is gathered into a project list from which pages are written (including namelists of every code unit, after pruning). R8: the anchors [[owner:item]] and entity links point to are emitted unconditionally on the owner's page. R1 and R5 work on the macro-expanded templates and on symbolically evaluated string compositions, not on literal text."
+    " Added after waves 6/7 - the page's absolute file name is never printed; members hidden by the display filter are not left visible; cached links are keyed by the page depth they depend on."
 )
 ASSUMPTIONS = [
     "jinja2's own parser is used to read templates (nothing is rendered)",
@@ -1228,6 +1229,19 @@ def r10_graph_links(ctx, rep):
     from . import c05
     c05.r5_graph_links_and_constructor(ctx, rep)
 
+def r11_visible_after_filter(ctx, rep):
+    """entities removed by the display filter are not left `visible` (their pages are not written): see C05.R2"""
+    from . import c05
+    c05._visible_after_filter(ctx, rep)
+
+
+def r12_memo(ctx, rep):
+    """a cached link is only reused where it was made for: the relative URL depends on the depth of the page (shared with
+    C11.R9 / C17.R7)"""
+    from . import c11
+    c11.r9_memo(ctx, rep)
+
+
 RULES = [
     RuleSpec("C09.R7", r7_pageable_entities_get_pages, "entities that have a page URL get a page", floor=12),
     RuleSpec("C09.R8", r8_anchor_targets_exist, "anchors of linkable members are emitted unconditionally", floor=16),
@@ -1239,4 +1253,6 @@ RULES = [
     RuleSpec("C09.R6", r6_graph_urls, "links only to visible entities", floor=1),
     RuleSpec("C09.R9", r9_canonical_paths, "configured paths are canonical (shared with C19.R3)", floor=1),
     RuleSpec("C09.R10", r10_graph_links, "graph links go through the prepared node URL (shared with C05.R5)", floor=2),
+    RuleSpec("C09.R11", r11_visible_after_filter, "collection members are marked visible only after the display filter (shared with C05.R2)", floor=1),
+    RuleSpec("C09.R12", r12_memo, "no cached link outlives the page depth it was computed for (shared with C11.R9)", floor=1),
 ]
